@@ -469,11 +469,7 @@ func f4(w *World, r *Report) {
 	}
 	ae := needFn(r, "F-4", w, fref{"node", "RigoApp", "EndBlock"})
 	if ae != nil {
-		ok := false
-		for _, c := range w.callsTo(ae, fref{"ctrlers/account", "AcctCtrler", "EndBlock"}) {
-			_, a := callRecvArgs(c.Common())
-			ok = len(a) == 1 && w.Canon(a[0]) == "recv.nextBlockCtx"
-		}
+		ok := w.endBlockCalls()["recv.acctCtrler"] == 1
 		r.Check(ok, "F-4", "RigoApp.EndBlock:account-endblock", "the account controller's EndBlock runs once per block on the executing block's context", "RigoApp.EndBlock does not run the account controller's EndBlock on the executing block's context", fnSite(w, ae))
 	}
 }
